@@ -711,3 +711,35 @@ FN('do_into_body', props=['C09'], ret='r',
    ensures=[('aux.do_into_body', '''r.request == self.request && r.analyzed == self.analyzed && r.state.phase == Phase::RecvBody && r.state.writer == self.state.writer && r.state.reader == self.state.reader
             && r.state.skip_method_body_check == self.state.skip_method_body_check && r.state.stop_on_chunk_boundary == self.state.stop_on_chunk_boundary''')])
 END()
+
+# ------------------------------------------------------------------ Call<RecvBody>
+IMPL('impl<B> Call<RecvBody, B>')
+FN('read', props=['C07', 'C08', 'C12', 'C01'], ret='r',
+   requires=[('aux.RecvBody.read.wf', 'old(self).wf() && old(self).state.reader is Some')],
+   ensures=[
+       ('aux.RecvBody.read.frame', '''final(output).len() == old(output).len() && final(self).wf() && final(self).state.reader is Some
+            && final(self).request == old(self).request && final(self).analyzed == old(self).analyzed && final(self).state.phase == old(self).state.phase && final(self).state.writer == old(self).state.writer
+            && final(self).state.skip_method_body_check == old(self).state.skip_method_body_check && final(self).state.stop_on_chunk_boundary == old(self).state.stop_on_chunk_boundary'''),
+       ('C12.counts', 'r is Ok ==> r->Ok_0.0 <= input.len() && r->Ok_0.1 <= old(output).len()'),
+       ('C12.copy_in_order', 'r is Ok ==> crate::chunk::is_subseq(final(output)@.subrange(0, r->Ok_0.1 as int), input@.subrange(0, r->Ok_0.0 as int))'),
+       ('C08.ended_body_reads_nothing', '''({ let rd = old(self).state.reader->Some_0;
+            (rd is NoBody || (rd is LengthDelimited && rd->LengthDelimited_0 == 0) || (rd is Chunked && rd->Chunked_0 is Ended)) ==> r == Ok::<(usize, usize), Error>((0usize, 0usize)) && final(self).state.reader == old(self).state.reader })'''),
+       ('C08.length_delimited', 'old(self).state.reader->Some_0 is LengthDelimited && old(self).state.reader->Some_0->LengthDelimited_0 > 0 ==> BodyReader::post_read_limit(old(self).state.reader->Some_0, final(self).state.reader->Some_0, input@, old(output)@, final(output)@, r)'),
+       ('C08.close_delimited', 'old(self).state.reader->Some_0 is CloseDelimited ==> BodyReader::post_read_unlimit(old(self).state.reader->Some_0, final(self).state.reader->Some_0, input@, old(output)@, final(output)@, r)'),
+       ('C07.chunked', 'old(self).state.reader->Some_0 is Chunked ==> BodyReader::post_read_chunked(old(self).state.reader->Some_0, final(self).state.reader->Some_0, input@, final(output)@, old(self).state.stop_on_chunk_boundary, r)'),
+   ],
+   before=[('if rbm.is_ended() {', 'proof { crate::body::lemma_subseq_refl(input@.subrange(0, 0)); assert(output@.subrange(0, 0) =~= input@.subrange(0, 0)); }')],
+   )
+FN('stop_on_chunk_boundary', props=['C07'],
+   ensures=[('aux.stop_on_chunk_boundary', 'final(self).state.stop_on_chunk_boundary == enabled && final(self).request == old(self).request && final(self).analyzed == old(self).analyzed && final(self).state.phase == old(self).state.phase && final(self).state.writer == old(self).state.writer && final(self).state.reader == old(self).state.reader && final(self).state.skip_method_body_check == old(self).state.skip_method_body_check')])
+FN('is_on_chunk_boundary', props=['C07'], ret='r',
+   requires=[('C09.reader_present', 'self.state.reader is Some')],
+   ensures=[('aux.RecvBody.is_on_chunk_boundary', 'r == (self.state.reader->Some_0 is Chunked && self.state.reader->Some_0->Chunked_0 is Size)')])
+FN('is_ended', props=['C07', 'C08', 'C09'], ret='r',
+   requires=[('C09.reader_present', 'self.state.reader is Some')],
+   ensures=[('C08.complete_iff', '''r == match self.state.reader->Some_0 { BodyReader::NoBody => true, BodyReader::LengthDelimited(v) => v == 0,
+            BodyReader::Chunked(d) => d is Ended, BodyReader::CloseDelimited => false }''')])
+FN('is_close_delimited', props=['C08', 'C10'], ret='r',
+   requires=[('C09.reader_present', 'self.state.reader is Some')],
+   ensures=[('aux.is_close_delimited', 'r == (self.state.reader->Some_0 is CloseDelimited)')])
+END()
